@@ -111,13 +111,18 @@ SKELETONS = {
             "n": {"type": "integer", "default": 0}},
         "default": {"deep": {"a": {"b": [{"c": 1}]}}, "n": 1}}},
         "doc.json", '{**({"deep": {"a": {"b": [{"c": (1 if h2 else x)}]}}} if h1 else {"choice": ({"on": {"level": 3}} if h2 else {"on": {"level": x}})}), "n": y}'),
+    "object_under_not": ({"doc.json": {
+        "type": "object", "properties": {"n": {"type": "integer", "minimum": 0},
+                                         "part": {"type": "object", "title": "Part", "properties": {"w": {"type": "integer"}}, "not": {"type": "object", "title": "Part", "required": ["bad"]}}},
+        "not": {"type": "object", "required": ["forbidden"]}}},
+        "doc.json", '{"n": x, **({"part": ({"w": y} if h2 else {"w": y, "bad": 1})} if h1 else {"forbidden": y})}'),
     "pointer_entry": ({"doc.json": {"definitions": {"Entry": {"type": "object", "properties": {"k": {"$ref": "#/definitions/K"}}, "required": ["k"]},
                                                     "K": {"type": "object", "properties": {"n": {"type": "integer", "minimum": 2}}}}}},
                       "doc.json#/definitions/Entry", '{"k": ({"n": x} if h1 else {"m": y}), **({"z": y} if h2 else {})}'),
 }
 
 # single-file skeletons without C01-level known deviations: the generated root is also compared with ref6 on the source
-REF6_SKELETONS = {"root_def_def", "shared_def", "untitled_nested", "repeated_titles", "nested_literals", "equal_shapes_different_titles", "boolean_subschemas"}
+REF6_SKELETONS = {"object_under_not", "root_def_def", "shared_def", "untitled_nested", "repeated_titles", "nested_literals", "equal_shapes_different_titles", "boolean_subschemas"}
 
 _CNT = [0]
 
@@ -192,15 +197,19 @@ def struct_ok(text, parsed):
 
 
 def root_of(ns, parsed):
-    """the generated counterpart of the parsed root element"""
-    from vf.common import ObjectMeta, Array
+    """the generated counterpart of the parsed root element: the root's repr (its constructor expression, C18)
+    evaluated with the GENERATED classes standing for the parsed ones"""
+    from vf.common import ObjectMeta, public_ns, classes_of
 
     root = parsed[0]
     if isinstance(root, ObjectMeta):
         return ns[root.__name__]
-    if isinstance(root, Array) and isinstance(root.items, ObjectMeta):
-        return Array(ns[root.items.__name__], minItems=root.minItems)
-    return None
+    env = public_ns()
+    env.update(classes_of(ns))
+    try:
+        return eval(repr(root), env)  # noqa: S307
+    except Exception:  # noqa
+        return None
 
 
 def equivalent(name, v):
@@ -238,7 +247,7 @@ def accepted(name, v):
 
 def harnesses(ctx) -> List[H]:
     hs: List[H] = []
-    quick = {"root_def_def", "shared_def", "cross_file", "untitled_nested", "repeated_titles", "defaults_equal_to_constructor", "renamed_and_literals", "boolean_subschemas", "false_only_in_single_positions", "equal_shapes_different_titles", "nested_literals"}
+    quick = {"root_def_def", "shared_def", "cross_file", "untitled_nested", "repeated_titles", "defaults_equal_to_constructor", "renamed_and_literals", "boolean_subschemas", "false_only_in_single_positions", "equal_shapes_different_titles", "nested_literals", "object_under_not"}
     for name, (_files, _entry, build) in SKELETONS.items():
         hs.append(mk(f"c02_{name}", "x: int, y: int, h1: bool, h2: bool", [], f"v = {build}\nreturn equivalent({name!r}, v)", timeout=200, group="skeleton",
                      tier="quick" if name in quick else "thorough", covers=f"skeleton {name}: main() output executes, defines the parser's classes (equal), root verdict/result equal for the value family {build}"))
